@@ -709,8 +709,8 @@ def run_lines_robust(exe, lines, timeout=120, env=None, args=(), per_line_timeou
                 out_all.append("TIMEOUT")
         else:
             out_all.append("CRASH:%s" % status)
-        if out_all[-1] == "TIMEOUT" or out_all[-1].startswith("CRASH"):
-            failures += 1
+        if timed_out or out_all[-1] == "TIMEOUT" or out_all[-1].startswith("CRASH"):
+            failures += 1          # a batch that hung counts even when its culprit line alone does not hang (state-dependent hangs)
         rest = rest[len(complete) + 1:]
         first = False
     return out_all
